@@ -166,7 +166,14 @@ def rule(draw, balanced='maybe', frag=None):
     mode = balanced if balanced != 'maybe' else draw(st.sampled_from(['yes', 'yes', 'yes', 'no']))
     if mode == 'no':
         k = draw(st.integers(0, len(edits) - 1))
-        if draw(st.booleans()) and len(edits) > 1:
+        how = draw(st.sampled_from(['delete', 'duplicate', 'move', 'move']))
+        single = [i for i, e in enumerate(edits) if e[0] in ('inc-rad', 'dec-rad', 'inc-charge', 'dec-charge')]
+        if how == 'move' and single and n >= 2:
+            # the same edits, one of them on another atom: the per-atom imbalances cancel in total
+            i = draw(st.sampled_from(single))
+            other = draw(st.sampled_from([a for a in range(n) if a != edits[i][1]]))
+            edits[i] = [edits[i][0], other]
+        elif how == 'delete' and len(edits) > 1:
             del edits[k]
         else:
             edits.insert(k, list(edits[k]))
